@@ -58,10 +58,10 @@ theorem sortLess_trans (a b c : DrawObj) (h1 : sortLess a b = true) (h2 : sortLe
 theorem sortLess_incomp_trans (a b c : DrawObj)
     (h1 : sortLess a b = false) (h1' : sortLess b a = false) (h2 : sortLess b c = false) (h2' : sortLess c b = false) :
     sortLess a c = false ∧ sortLess c a = false := by
-  rw [sortLess_iff_keyLess] at *
+  rw [sortLess_iff_keyLess] at h1 h1' h2 h2'
   have e1 := keyLess_total _ _ h1 h1'
   have e2 := keyLess_total _ _ h2 h2'
-  rw [e1, e2]; exact ⟨keyLess_irrefl _, keyLess_irrefl _⟩
+  rw [sortLess_iff_keyLess, sortLess_iff_keyLess, e1, e2]; exact ⟨keyLess_irrefl _, keyLess_irrefl _⟩
 
 /-- "stable sort by the comparator" = sort by (key, input position) -/
 def stableLe (a b : (Int × Nat × Nat) × Nat) : Prop :=
@@ -70,10 +70,9 @@ def stableLe (a b : (Int × Nat × Nat) × Nat) : Prop :=
 /-- draw order is a function of the input order: two arrangements of the same objects (tagged with their input
     positions) that are both sorted by (key, position) are the same list -/
 theorem drawOrder_unique {l₁ l₂ : List ((Int × Nat × Nat) × Nat)} (p : l₁.Perm l₂)
-    (s₁ : l₁.Pairwise stableLe) (s₂ : l₂.Pairwise stableLe) (idx : (l₁.map Prod.snd).Nodup) : l₁ = l₂ := by
+    (s₁ : l₁.Pairwise stableLe) (s₂ : l₂.Pairwise stableLe) : l₁ = l₂ := by
   refine List.Perm.eq_of_pairwise (fun a b ha hb hab hba => ?_) s₁ s₂ p
-  have hb' : b ∈ l₁ := p.mem_iff.mpr hb
-  -- antisymmetry: equal keys and equal positions, and positions identify elements
+  -- antisymmetry of (key, position)
   have hk : a.1 = b.1 ∧ a.2 = b.2 := by
     rcases hab with h | ⟨h, h'⟩ <;> rcases hba with g | ⟨g, g'⟩
     · have := keyLess_trans _ _ _ h g; rw [keyLess_irrefl] at this; cases this
